@@ -6,12 +6,16 @@
    from solvers/ode.py on every run: Lie (E, O with weight 1), Strang (E/2, O, E/2), Yoshida
    (triple jump of Strang steps with 2 w1 + w0 = 1 and 2 w1^3 + w0^3 = 0 for c = 2^(1/3)), Kahan-Li
    (palindromic 17-stage composition, sum = 1, sum gamma^3 and sum gamma^5 below 1e-25).
-   PARTIAL: the composition of the stage updates into "one step = ordered dense product" and the
+   (3) STAGE VALUE: one whole stage as coded (all bonds of one parity: contract, propagate, split by SVD; the unpaired last
+   site propagated alone) applies the tensor product of the local propagators to the train: every entry of the new train is
+   sum over input tuples of  prod K_i[(x_i x_i+1),(y_i y_i+1)] * (old entry)  -- any chain length, dimensions, ranks, parity
+   (SVD value conjunct per consumed answer); a step is the composition of its stages in the regenerated order.
+   PARTIAL: the composition of the stage values into one dense product over a whole step (immediate, not formalised) and the
    global orders 1, 2, 4, >= 6 (BCH / composition theory) are covered by model + oracle-tape
    correspondence + side check (dense expm products, observed orders, norm preservation). *)
 From Coq Require Import Reals QArith ZArith List Lia Arith.
 Import ListNotations.
-Require Import Ring Sums Matrix Core Chain Sweep SweepProof Splitting SplitProof.
+Require Import Ring Sums Matrix Core Chain Sweep SweepProof Splitting SplitProof StageProof.
 Require Import SkTT.Gen.SplittingCoeffs SkTT.Proofs.SplitCoeffProof.
 
 Theorem C10_pair_update (R : cring) idx (a : svd_ans R) (K : M R) (c c1 : core R) al x1 x2 b :
@@ -21,6 +25,14 @@ Theorem C10_pair_update (R : cring) idx (a : svd_ans R) (K : M R) (c c1 : core R
   applied K c c1 al (x1 * md c1 + x2)%nat b.
 Proof. exact (pair_step_value idx a K c c1 al x1 x2 b). Qed.
 Print Assumptions C10_pair_update.
+
+Theorem C10_stage_value (R : cring) thr maxr (Ks : list (M R)) even fuel pos answers (cs : list (core R)) xs a b fin :
+  (length cs < fuel)%nat -> stage_hyp thr maxr Ks even fuel pos answers cs ->
+  linked cs fin -> below xs (rows cs) -> (a < rl_of cs fin)%nat -> (b < fin)%nat ->
+  chain (stage_cores thr maxr Ks even fuel pos answers cs) xs (StageProof.zeros (length cs)) a b =
+  msum (rows cs) (fun ys => Wst Ks even fuel pos (rows cs) xs ys * chain cs ys (StageProof.zeros (length cs)) a b).
+Proof. exact (stage_value thr maxr Ks even fuel pos answers cs xs a b fin). Qed.
+Print Assumptions C10_stage_value.
 
 Theorem C10_lie_coefficients : lie_stages = [(0, true); (0, false)]%nat /\
   Qeq_bool (fst (nth 0 lie_sets (0, 0)%Q)) 1 = true /\ Qeq_bool (snd (nth 0 lie_sets (0, 0)%Q)) 1 = true.
